@@ -234,6 +234,7 @@ func (e *Engine) AnalyzeRootFree(fn *ssa.Function, args []*Val, free []*Val) ([]
 		default:
 			p.Trunc = "internal: loop outcome escaped"
 		}
+		e.transplantScratch(p)
 		paths = append(paths, p)
 	}
 	if e.truncated != "" {
@@ -339,6 +340,14 @@ func (e *Engine) load(st *state, addr *Val, t types.Type) *Val {
 		if g, ok := addr.Aux.(*ssa.Global); ok {
 			if !e.moduleGlobal(addr) || (e.NonNilGlobals != nil && e.NonNilGlobals[g]) {
 				return &Val{Op: "nonnil", Name: addr.Name, Type: t}
+			}
+		}
+	}
+	// a package-level byte array whose contents are fixed once package initialisation is over (a blank record)
+	if addr.Op == "global" {
+		if g, ok := addr.Aux.(*ssa.Global); ok && e.moduleGlobal(addr) {
+			if b := e.P.StartupBytes(g); b != nil {
+				return &Val{Op: "bytesconst", Name: fmt.Sprintf("%x", b), Aux: b, Type: t}
 			}
 		}
 	}
@@ -487,6 +496,10 @@ func (e *Engine) store(st *state, fr *frame, addr, v *Val, instr ssa.Instruction
 		}
 	}
 	st.mem[addr.Key()] = memEntry{Addr: addr, V: v}
+	if sv := stripCT(v); sv != nil && sv.Op == "bytesconst" && addr.Op == "alloc" {
+		// a local byte array starting as a copy of a constant one: a record being laid out over a blank
+		st.content[addr.Key()] = stagedFromBytes(sv.Aux.([]byte), sv.Type)
+	}
 	// a field store into a record whose value as a whole is recorded (`marks := T{…}; marks.f = x`): the whole value
 	// changes with it
 	for a := addr; a.Op == "field" && len(a.Args) == 1; a = a.Args[0] {
@@ -1992,6 +2005,8 @@ func (e *Engine) loopOutVal(phiType types.Type, init, lv *Val, iters []*Arm, cou
 	// append accumulation: next = append(lv, elems)
 	if len(iters) > 0 {
 		var elem *Val
+		var elems []*Val
+		differ := false
 		ok := true
 		same := true
 		for _, it := range iters {
@@ -2004,10 +2019,11 @@ func (e *Engine) loopOutVal(phiType types.Type, init, lv *Val, iters []*Arm, cou
 				same = false
 			}
 			if n.Op == "call" && n.Name == "append" && len(n.Args) == 2 && n.Args[0].Key() == lv.Key() {
+				elems = append(elems, n.Args[1])
 				if elem == nil {
 					elem = n.Args[1]
 				} else if elem.Key() != n.Args[1].Key() {
-					ok = false
+					differ = true
 				}
 			} else {
 				ok = false
@@ -2015,6 +2031,23 @@ func (e *Engine) loopOutVal(phiType types.Type, init, lv *Val, iters []*Arm, cou
 		}
 		if same {
 			return init
+		}
+		if ok && differ {
+			// one element appended on every way through the body, not the same expression on each: the element is the one
+			// of the way taken (alternative i belongs to iteration path i)
+			ch := &Val{Op: "choice", Name: "perarm"}
+			for _, el := range elems {
+				a := stripCT(el)
+				if a.Op != "arraylit" || len(a.Args) != 1 {
+					ok = false
+					break
+				}
+				ch.Args = append(ch.Args, a.Args[0])
+				ch.Type = a.Args[0].Type
+			}
+			if ok {
+				elem = &Val{Op: "arraylit", Args: []*Val{ch}, Type: elems[0].Type}
+			}
 		}
 		if ok && elem != nil {
 			return &Val{Op: "collect", ID: lid, Args: []*Val{init, elem, count}, Type: phiType}
@@ -2089,7 +2122,7 @@ func (e *Engine) step(st *state, fr *frame, instr ssa.Instruction) {
 		}
 		elem := in.Type().Underlying().(*types.Pointer).Elem()
 		st.allocT[id] = elem
-		fr.env[in] = &Val{Op: "alloc", ID: id, Name: kind, Type: in.Type()}
+		fr.env[in] = &Val{Op: "alloc", ID: id, Name: kind, Type: in.Type(), Aux: in}
 	case *ssa.BinOp:
 		x, y := e.val(fr, in.X), e.val(fr, in.Y)
 		if in.Op == token.QUO || in.Op == token.REM {
